@@ -1,6 +1,7 @@
 """translator whitelist for C18 (toolbox colour spaces): the 8-bit integer formulas of ycbcr_601 -> rgb and the 8-bit
 luminance kernel that the toolbox luminance converter is compared with."""
 from cxx2lean import Sym
+import C06_syms
 H = "boost/gil/extension/toolbox/color_spaces/ycbcr.hpp"
 HC = "boost/gil/color_convert.hpp"
 NAMESPACE = "GilVerif.Gen.C18"
@@ -24,4 +25,8 @@ SYMS = [
     Sym(HC, r"struct rgb_to_luminance_fn<uint8_t,uint8_t,uint8_t, GrayChannelValue> \{\s*auto operator\(\)\(uint8_t red, uint8_t green, uint8_t blue\) const -> GrayChannelValue",
         "lum8", [("red", "uint8_t"), ("green", "uint8_t"), ("blue", "uint8_t")], ret="uint8_t",
         subst=[(r"channel_convert<GrayChannelValue>\(", "(")], doc="core 8-bit luminance (the toolbox double luminance is compared with it)"),
+    # channel kernels of the depth-changing gray_alpha / gray -> rgba conversions
+    Sym("boost/gil/channel_algorithm.hpp", r"struct channel_multiplier_unsigned<uint16_t>.*?auto operator\(\)\(uint16_t a, uint16_t b\) const -> uint16_t", "mul_u16",
+        [("a", "uint16_t"), ("b", "uint16_t")], ret="uint16_t"),
+    C06_syms.kernel("up_div", "B8", "B16"), C06_syms.kernel("down_div", "B16", "B8"),
 ]
